@@ -26,6 +26,7 @@ func main() {
 	trace := flag.Bool("trace", false, "print scheduler trace")
 	crash := flag.Int("crash", 0, "crash after k-th controller write")
 	failc := flag.Int("fail", 0, "fail k-th controller call")
+	faults := flag.String("faults", "", "fault plan JSON (overrides -crash / -fail)")
 	failk := flag.String("failkind", "error", "error|timeout|conflict|lost")
 	spec := flag.String("spec", "", "scenario JSON (overrides)")
 	replay := flag.String("replay", "", "replay file: take detail.scenario as the spec")
@@ -82,7 +83,12 @@ func main() {
 	}
 	fmt.Println("SCENARIO", s.String())
 	var fp *sim.FaultPlan
-	if *crash > 0 || *failc > 0 {
+	if *faults != "" {
+		fp = &sim.FaultPlan{}
+		if err := json.Unmarshal([]byte(*faults), fp); err != nil {
+			panic(err)
+		}
+	} else if *crash > 0 || *failc > 0 {
 		fp = &sim.FaultPlan{CrashAfterWrite: *crash, FailCall: *failc, FailKind: *failk}
 	}
 	r, err := sim.NewRun(s, ".", fp)
